@@ -98,6 +98,13 @@ def _tempo_values(ctx, r):
 def run(ctx):
     r = rng("C08")
     recs = []
+    # language level: product of the extracted recognisers with the spec grammars, witnesses replayed on the real code
+    import lang
+    lrecs, _info = lang.run_lang(ctx, "C08")
+    lby = {x["id"]: x for x in lrecs}
+    lrej = ctx.validate(lrecs)
+    lang.report(ctx, lrej, lby)
+    lang.note_unreproduced(ctx, lrecs, lrej)
     # ---- tempo values: batches of B lines at increasing ticks, one parse per batch
     ns = _tempo_values(ctx, r)
     ctx.extra["tempo_values_swept"] = len(ns)
